@@ -87,6 +87,20 @@ plain `def` when `sync`) - FN_KINDS:
     taken out by an await.  The driver awaits none of them: what is left un-awaited when the
     case is over is closed (a coroutine that never started runs no code).
 
+HOW a node / a task function comes by its Context, its message and its broker is part of the case (`src` of a node or
+task spec that has `ctx`; absent = the Context as a cached dependency, `ctx: Context = TaskiqDepends()`):
+  * {"kind": "ctx", "cached": false}: `ctx: Context = TaskiqDepends(use_cache=False)` - the resolver does not take it from
+    its cache but builds one itself, late (when the kwargs of the requesting function are computed, after every cached
+    dependency - awaiting ones included - has been resolved);
+  * {"kind": "msg" | "brk", "cached": b}: `TaskiqMessage` / `AsyncBroker` requested from the resolver directly;
+  * {"kind": "prov", "prov": K, "cached": b}: through provider K of the case's `provs` - a nested dependency (plain function /
+    coroutine / generator / async generator) that takes the Context itself (cached or `pc` false: use_cache=False) and
+    hands on the Context, `ctx.message` or `ctx.broker`; providers are shared by the nodes / tasks that name them.
+Whatever is obtained is observed the same way: the whole message it refers to (for a broker: whether it is the case's
+broker).  A provider is a dependency too: it echoes the Context it was given.  Shapes taskiq does not support end the
+execution with an error of its own while its dependencies are resolved (no body, no read) - that is an observation,
+not a harness failure.
+
 The execution an event belongs to is carried by a ContextVar set by the harness task that calls
 `Receiver.callback` (propagated into the worker thread of sync task functions by the loop subclass) - it does
 not go through anything the properties are about."""
@@ -98,6 +112,7 @@ import functools
 import inspect
 import json
 import random
+import re
 import sys
 import types
 from concurrent.futures import ThreadPoolExecutor
@@ -109,6 +124,7 @@ import taskiq_dependencies.ctx as dctx
 import taskiq_dependencies.graph as dgraph
 import vloop
 from taskiq import Context, TaskiqDepends
+from taskiq.abc.broker import AsyncBroker
 from taskiq.abc.middleware import TaskiqMiddleware
 from taskiq.abc.result_backend import AsyncResultBackend
 from taskiq.acks import AckableMessage, AcknowledgeType
@@ -402,6 +418,8 @@ def on_append(owner, kind, x):
     if kind == "sub":
         R.ev("sub", e, cid, R.cid.get(id(x)))
         return
+    if (codename(x) or "").startswith("prov_"):
+        return                  # a generator provider of the Context / message / broker: not one of the graph's nodes
     tok, node = R.pending.pop(e, (None, None))
     if tok is None or codename(x) != "node_%d" % node:
         raise RuntimeError("harness: opened object %r does not match the entered dependency %r" % (codename(x), node))
@@ -492,10 +510,44 @@ def snapshot(m):
             "labels": jsonable(m.labels)}
 
 
+class MsgView:
+    """a message that was obtained without its Context (TaskiqMessage through the resolver or through a provider)"""
+
+    def __init__(self, message):
+        self.message = message
+
+
+class BrkView:
+    """a broker that was obtained without a Context: there is no message to look at"""
+
+    message = None
+
+    def __init__(self, broker):
+        self.broker = broker
+
+
+def h_view(obj):
+    """whatever a node / a task function obtained as its Context / message / broker, looked at through `.message`"""
+    if obj is None or isinstance(obj, (Context, MsgView, BrkView)):
+        return obj
+    if isinstance(obj, AsyncBroker):
+        return BrkView(obj)
+    return MsgView(obj)
+
+
 def echo(ctx):
-    if ctx is None:
+    if ctx is None or isinstance(ctx, BrkView):
         return None
-    return snapshot(ctx.message)
+    m = ctx.message
+    if not isinstance(m, TaskiqMessage):
+        # neither a Context nor a message: reported as it is (it is nobody's message)
+        return {"tid": None, "name": None, "args": [], "kwargs": {}, "labels": {}, "unexpected": type(m).__name__}
+    return snapshot(m)
+
+
+def note_broker(e, where, ctx):
+    if isinstance(ctx, BrkView):
+        R.ev("brk", e, where, ctx.broker is R.broker)
 
 
 def apply_muts(e, at, ctx, node=None, pv=NOPV):
@@ -512,14 +564,14 @@ def apply_muts(e, at, ctx, node=None, pv=NOPV):
             if node is None:
                 target = None if pv is NOPV else pv
             else:
-                target = None if ctx is None else val_slot(ctx.message, plan)
+                target = None if ctx is None or ctx.message is None else val_slot(ctx.message, plan)
             if not mark_val(target, e):
                 continue
             if op == "valtmp":
                 R.scratch[e] = target
             R.ev("mut", e, op, at, node)
             continue
-        if ctx is None:
+        if ctx is None or not isinstance(getattr(ctx, "message", None), TaskiqMessage):
             continue
         if op == "setmsg":
             # the Context's message re-assigned to a private deep copy; later writes through ctx go to the copy
@@ -540,6 +592,7 @@ def h_enter(node, ctx, ucfg=None):
     R.tok += 1
     R.toksrc[R.tok] = R.src.get(e)
     R.ev("enter", e, node, R.tok, R.src.get(e), echo(ctx), None if ucfg is None else getattr(ucfg, "tag", "?"))
+    note_broker(e, "node %d" % node, ctx)
     apply_muts(e, "node", ctx, node)
     return R.tok
 
@@ -569,6 +622,16 @@ async def h_pause():
         await asyncio.sleep(p / 1_000_000)
 
 
+def h_prov(k, ctx):
+    """provider k was called (with the Context the resolver gave it): a dependency's read like any other"""
+    e = EXEC.get()
+    R.ev("prov", e, k, R.src.get(e), echo(ctx))
+
+
+def h_pick(get, ctx):
+    return ctx if get == "ctx" else ctx.message if get == "msg" else ctx.broker
+
+
 def h_ready(node, tok):
     R.pending[EXEC.get()] = (tok, node)
 
@@ -590,7 +653,7 @@ def h_val(node, tok):
 
 
 def wants_requeue(plan, ctx):
-    return ctx is not None and any(mu["op"] == "requeue" for mu in plan.get("muts") or [])
+    return isinstance(ctx, Context) and any(mu["op"] == "requeue" for mu in plan.get("muts") or [])
 
 
 def end_scratch(e):
@@ -602,6 +665,7 @@ def end_scratch(e):
 async def h_body(t, tok, kw, ctx, vals, pv=NOPV):
     e = EXEC.get()
     plan = R.plan(e)
+    note_broker(e, "task", ctx)
     payload = {"arg": tok, "kw": kw, "echo": echo(ctx), "task": t}
     if pv is not NOPV:
         payload["pv"] = jsonable(pv)
@@ -618,7 +682,7 @@ async def h_body(t, tok, kw, ctx, vals, pv=NOPV):
     apply_muts(e, "end", ctx, pv=pv)
     if pv is not NOPV:
         R.ev("pread", e, "end", jsonable(pv))
-    if ctx is not None:
+    if echo(ctx) is not None:
         R.ev("read", e, "task", 0, echo(ctx))
     if wants_requeue(plan, ctx):
         # the built-in Context.requeue(): bumps X-Taskiq-requeue of ctx.message in place, kicks, raises NoResultError
@@ -637,6 +701,7 @@ async def h_body(t, tok, kw, ctx, vals, pv=NOPV):
 
 def h_body_sync(t, tok, kw, ctx, vals, pv=NOPV):
     e = EXEC.get()
+    note_broker(e, "task", ctx)
     payload = {"arg": tok, "kw": kw, "echo": echo(ctx), "task": t}
     if pv is not NOPV:
         payload["pv"] = jsonable(pv)
@@ -646,7 +711,7 @@ def h_body_sync(t, tok, kw, ctx, vals, pv=NOPV):
     apply_muts(e, "end", ctx, pv=pv)
     if pv is not NOPV:
         R.ev("pread", e, "end", jsonable(pv))
-    if ctx is not None:
+    if echo(ctx) is not None:
         R.ev("read", e, "task", 0, echo(ctx))
     return h_finish(e, R.plan(e), payload)
 
@@ -775,7 +840,7 @@ def h_outer_wrapped(kind, t, fn, args, kwargs):
     function `fn` is called - which runs nothing of it - and its coroutine handed back"""
     a = inspect.signature(fn).bind(*args, **kwargs).arguments
     vals = [a[k] for k in sorted((k for k in a if k[:1] == "d" and k[1:].isdigit()), key=lambda k: int(k[1:]))]
-    return h_outer(kind, t, a["tok"], a.get("kw", -1), a.get("ctx"), vals, a.get("pv", NOPV), aw=fn(*args, **kwargs))
+    return h_outer(kind, t, a["tok"], a.get("kw", -1), h_view(a.get("ctx")), vals, a.get("pv", NOPV), aw=fn(*args, **kwargs))
 
 
 def not_async_aware(kind, t):
@@ -812,10 +877,36 @@ def settle_awaitables(run):
 
 
 # --------------------------------------------------------------------------- generated code
+def src_param(src):
+    """the parameter `ctx` of a node / a task function: how it comes by its Context / message / broker"""
+    if not src:
+        return "ctx: Context = TaskiqDepends()"
+    cached = bool(src.get("cached", True))
+    if src["kind"] == "prov":
+        return "ctx=TaskiqDepends(prov_%d, use_cache=%s)" % (src["prov"], cached)
+    ann = {"ctx": "Context", "msg": "TaskiqMessage", "brk": "AsyncBroker"}[src["kind"]]
+    return "ctx: %s = TaskiqDepends(use_cache=%s)" % (ann, cached)
+
+
+def prov_src(k, p):
+    head = "def prov_%d(ctx: Context = TaskiqDepends(use_cache=%s)):\n    h_prov(%d, ctx)\n" % (k, bool(p.get("pc", True)), k)
+    pick = "h_pick(%r, ctx)" % p["get"]
+    st = p["style"]
+    if st == "plain":
+        return head + "    return %s\n" % pick
+    if st == "coro":
+        return "async " + head + "    await h_pause()\n    return %s\n" % pick
+    if st == "gen":
+        return head + "    yield %s\n" % pick
+    if st == "agen":
+        return "async " + head + "    await h_pause()\n    yield %s\n" % pick
+    raise ValueError(st)
+
+
 def node_src(k, n):
     params = []
     if n.get("ctx"):
-        params.append("ctx: Context = TaskiqDepends()")
+        params.append(src_param(n.get("src")))
     if n.get("user"):
         params.append("ucfg: UserCfg = TaskiqDepends()")
     vals = []
@@ -823,7 +914,7 @@ def node_src(k, n):
         params.append("p%d=TaskiqDepends(node_%d, use_cache=%s)" % (j, child, bool(cached)))
         vals.append("p%d" % j)
     sig = ", ".join(params)
-    cxo = "ctx" if n.get("ctx") else "None"
+    cxo = ("h_view(ctx)" if n.get("src") else "ctx") if n.get("ctx") else "None"
     cx = cxo + (", ucfg" if n.get("user") else "")
     st = n["style"]
     swallow = bool(n.get("swallow"))
@@ -856,12 +947,12 @@ def task_src(t, spec):
         # second positional parameter: args = [tok, pv] or kwargs = {"pv": ...}
         params.insert(1, "pv: ANN_%s = None" % spec["val"])
     if spec.get("ctx"):
-        params.append("ctx: Context = TaskiqDepends()")
+        params.append(src_param(spec.get("src")))
     vals = []
     for j, (child, cached) in enumerate(spec.get("deps", [])):
         params.append("d%d=TaskiqDepends(node_%d, use_cache=%s)" % (j, child, bool(cached)))
         vals.append("d%d" % j)
-    cx = "ctx" if spec.get("ctx") else "None"
+    cx = ("h_view(ctx)" if spec.get("src") else "ctx") if spec.get("ctx") else "None"
     pv = ", pv" if spec.get("val") else ""
     fn = spec.get("fn")
     if fn is not None:
@@ -888,9 +979,9 @@ def fn_src(t, fn, params, call):
         # a coroutine function whose RESULT is another awaitable (it hands the coroutine of the real work back un-awaited)
         return "async def task_%d(%s):\n    return h_outer('%s', %s)\n" % (t, sig, fn, call)
     if fn in ("partial_async", "partial_sync"):
-        # a partial object has no type hints of its own for the resolver to read (it looks at `__call__`): the Context
-        # dependency is named explicitly
-        sig2 = ", ".join(params + ["bound: int = 0"]).replace("ctx: Context = TaskiqDepends()", "ctx: Context = TaskiqDepends(Context)")
+        # a partial object has no type hints of its own for the resolver to read (it looks at `__call__`): what `ctx` is
+        # to be (Context / TaskiqMessage / AsyncBroker) is named explicitly instead of through the annotation
+        sig2 = re.sub(r"ctx: (\w+) = TaskiqDepends\(", r"ctx: \1 = TaskiqDepends(\1, ", ", ".join(params + ["bound: int = 0"]))
         body = ("async def base_%d(%s):\n    return await h_body(%s)\n" if fn == "partial_async" else
                 "def base_%d(%s):\n    return h_body_sync(%s)\n") % (t, sig2, call)
         return body + "task_%d = functools.update_wrapper(functools.partial(base_%d, bound=7), base_%d)\n" % (t, t, t)
@@ -978,7 +1069,8 @@ ACK = {"when_received": AcknowledgeType.WHEN_RECEIVED, "when_executed": Acknowle
 
 
 def tree_of(c):
-    return {"cid": R.cid[id(c)], "own": [R.objtok.get(id(d)) for d in c.opened_dependencies],
+    return {"cid": R.cid[id(c)],
+            "own": [R.objtok.get(id(d)) for d in c.opened_dependencies if not (codename(d) or "").startswith("prov_")],
             "subs": [tree_of(s) for s in c.sub_contexts]}
 
 
@@ -995,6 +1087,7 @@ def _run_case(case):
     mod = types.ModuleType("verif_deps_generated")
     sys.modules[mod.__name__] = mod
     ns = mod.__dict__
+    ns.update(TaskiqMessage=TaskiqMessage, AsyncBroker=AsyncBroker, h_view=h_view, h_prov=h_prov, h_pick=h_pick)
     ns.update(UserCfg=UserCfg, Context=Context, TaskiqDepends=TaskiqDepends, contextlib=contextlib, h_enter=h_enter, h_fail=h_fail,
               h_pause=h_pause, h_ready=h_ready, h_close=h_close, h_closed=h_closed, h_val=h_val, h_body=h_body,
               h_body_sync=h_body_sync, h_inner=h_inner, h_outer=h_outer, not_async_aware=not_async_aware,
@@ -1010,6 +1103,8 @@ def _run_case(case):
         return guarded
 
     ns.update(h_close=this_run_only(h_close), h_closed=this_run_only(h_closed))
+    for k, p in enumerate(case.get("provs") or []):
+        exec(prov_src(k, p), ns)
     for k, n in enumerate(case["nodes"]):
         exec(node_src(k, n), ns)
     validate = bool(case.get("validate", True))
